@@ -62,6 +62,8 @@ type Config struct {
 	StructLiteralInContainer  bool // struct literals inside list/set/map literals: do not compile under value_type_in_container
 	CrossFileLiteralIdents    bool // identifiers (constants, enum members) inside a literal of a struct that is defined in ANOTHER file: resolved in the wrong scope, index out of range in getIDValue
 	ExponentDoubles      bool // 1.5e-3: the parser takes the exponent for the value (DESIGN §7, C03)
+	OptionalEnumInLiteral bool // struct literal that sets an optional enum member: `&EnumConst` (address of a constant) does not compile
+	ShortPackageNames    bool // files without go namespace whose base name is a single letter: package c/b/p/… is shadowed by locals of the templates
 	DupThrows            bool // the same exception type twice in one throws list (duplicate case in the processor's type switch)
 }
 
@@ -129,7 +131,7 @@ func Generate(r *vl.Rng, cfg Config) *Program {
 
 func (g *gen) layout() {
 	n := 1 + g.r.Intn(g.cfg.MaxFiles)
-	bases := []string{"a", "b", "c", "d", "e"}
+	bases := []string{"a", "b", "c", "base", "util"}
 	dirs := []string{"", "sub/", "sub/deep/", "other/"}
 	usedPath := map[string]bool{}
 	for i := 0; i < n; i++ {
@@ -160,7 +162,7 @@ func (g *gen) layout() {
 	noNS := map[string]bool{}
 	for i, f := range g.p.Files {
 		switch {
-		case g.cfg.NoGoNS && g.r.Chance(20) && !noNS[f.Prefix()] && !g.nsLast(f.Prefix()):
+		case g.cfg.NoGoNS && g.r.Chance(25) && !noNS[f.Prefix()] && !g.nsLast(f.Prefix()) && (g.cfg.ShortPackageNames || len(f.Prefix()) > 1):
 			noNS[f.Prefix()] = true
 			g.nsUsed[f.Prefix()] = true
 		case g.cfg.SharedGoNS && i > 0 && g.r.Chance(12) && g.p.Files[i-1].GoNS != "":
@@ -183,11 +185,22 @@ func (g *gen) layout() {
 	// includes: every file j > 0 is included by some i < j; extra edges make diamonds.
 	for j := 1; j < n; j++ {
 		i := g.r.Intn(j)
-		g.include(i, j)
+		ok := g.include(i, j)
 		for k := 0; k < j; k++ {
-			if k != i && g.r.Chance(35) {
-				g.include(k, j)
+			if k != i && (g.r.Chance(35) || !ok) {
+				if g.include(k, j) {
+					ok = true
+				}
 			}
+		}
+		if !ok {
+			// no file may include j under its current base name: give it a unique one
+			fj := g.p.Files[j]
+			fj.Path = strings.TrimSuffix(fj.Path, ".thrift") + fmt.Sprint(j) + ".thrift"
+			if fj.GoNS == "" {
+				fj.GoNS = fmt.Sprintf("pq%d", j)
+			}
+			g.include(i, j)
 		}
 	}
 }
@@ -201,30 +214,19 @@ func lastDot(s string) string {
 
 func (g *gen) nsLast(last string) bool { return g.nsUsed["last:"+last] || g.nsUsed[last] }
 
-func (g *gen) include(i, j int) {
+// include adds the edge i -> j if allowed; reports whether j is now included by i.
+func (g *gen) include(i, j int) bool {
 	fi, fj := g.p.Files[i], g.p.Files[j]
-	if !g.cfg.SamePrefixIncludes {
-		if fi.Prefix() == fj.Prefix() {
-			// the main chain must stay connected: fall back to including from a file with another prefix
-			for k := 0; k < j; k++ {
-				if g.p.Files[k].Prefix() != fj.Prefix() && g.canInclude(k, j) {
-					g.p.Files[k].Includes = append(g.p.Files[k].Includes, j)
-					return
-				}
-			}
-			// no such file: rename j's base
-			fj.Path = strings.TrimSuffix(fj.Path, ".thrift") + fmt.Sprint(j) + ".thrift"
-		}
-		if !g.canInclude(i, j) {
-			return
-		}
-	}
 	for _, x := range fi.Includes {
 		if x == j {
-			return
+			return true
 		}
 	}
+	if !g.cfg.SamePrefixIncludes && (fi.Prefix() == fj.Prefix() || !g.canInclude(i, j)) {
+		return false
+	}
 	fi.Includes = append(fi.Includes, j)
+	return true
 }
 
 func (g *gen) canInclude(i, j int) bool {
@@ -1108,6 +1110,9 @@ func (g *gen) constOf(fi int, t *Type, depth int, top bool) *Const {
 			z := g.zeroOfField(st, fd)
 			take := g.r.Chance(50) && g.constable(fd.Type, depth+1, false) && !(st.Kind == 'u' && set1)
 			if take && g.p.catOf(fd.Type) == 's' && g.reaches(fd.Type, d.Named.File, st.Name, 0) {
+				take = false
+			}
+			if take && !g.cfg.OptionalEnumInLiteral && g.p.catOf(fd.Type) == 'e' && (fd.Req == Optional || st.Kind == 'u') && fd.Default == nil && !g.will[fd] {
 				take = false
 			}
 			if !take {
